@@ -159,7 +159,7 @@ CliFaithful ==
   pc = "cli_done" =>
      LET r == res
          me == hist[Len(hist)]
-     IN CfgOfOpts(r, cfg) =>
+     IN (r.cur_given /\ CfgOfOpts(r, cfg)) =>
           /\ r.exit = 0
           /\ r.stdout_utf8
           /\ (r.output = "file") => r.has_outfile
@@ -373,7 +373,7 @@ App_C05 == \/ (pc = "eval_done" /\ op = "eval_time" /\ TimeDecision(EvalElem(cfg
            \/ (AtCleanReturn /\ ~DL.lenient /\ \E e \in DL.elems : e.p.name = cfg.tl)
 App_C06 == \/ (pc = "eval_done" /\ op = "eval_marker" /\ MarkerDecision(EvalElem(cfg.rm, Str_name), cfg) # "lenient")
            \/ (AtCleanReturn /\ ~DL.lenient /\ \E e \in DL.elems : e.p.name = cfg.rm)
-           \/ (pc = "cli_done" /\ CfgOfOpts(res, cfg))
+           \/ (pc = "cli_done" /\ res.cur_given /\ CfgOfOpts(res, cfg))
 App_C07 == AtTokens /\ Len(toks) >= 2
 App_C08 == AtTokens /\ RefSpans(file, cfg.ds, cfg.de) # <<>>
 App_C09 == \/ (pc = "tags_done" /\ \E i \in 1..Len(tags) :
@@ -400,6 +400,6 @@ App_C18 == pc = "returned" /\ op \in {"clean", "list_json"} /\
               /\ h.out # h.src
 App_C19 == C19_CompSpace /\ Len(Commits) >= 2 /\ Commits[1].src # out
            /\ \E i \in 1..Len(hist) : hist[i].op = "clean" /\ hist[i].src = Commits[1].src /\ hist[i].cfg = cfg
-App_C20 == pc = "cli_done" /\ CfgOfOpts(res, cfg)
+App_C20 == pc = "cli_done" /\ res.cur_given /\ CfgOfOpts(res, cfg)
            /\ \E i \in 1..(Len(hist) - 1) : hist[i].op = LibOpOf(res) /\ hist[i].src = hist[Len(hist)].src /\ hist[i].cfg = cfg
 =============================================================================
